@@ -141,6 +141,35 @@ def relations(rng, tier, rpt):
         back = Bip32PathParser.Parse(po.ToStr())
         if back.ToList() != po.ToList() or back.IsAbsolute() != po.IsAbsolute():
             rep("parse(print(p)) != p", po.ToStr(), str(back.ToList()), str(po.ToList()))
+        # path objects are compositional too: p extended element by element (ints and index objects) is the path p++q of the SAME kind
+        # (absolute/relative), prints and re-parses as such, leaves its receiver unchanged and derives the same key
+        from bip_utils import Bip32KeyIndex
+        for absolute in (False, True):
+            for start in (Bip32Path(p, absolute), Bip32PathParser.Parse(Bip32Path(p, absolute).ToStr())):
+                ext = start
+                for k, e in enumerate(q):
+                    ext = ext.AddElem(e if k % 2 == 0 else Bip32KeyIndex(e))
+                want = Bip32Path(p + q, absolute)
+                n += 1
+                if (ext.ToList(), ext.IsAbsolute(), ext.ToStr(), ext.Length()) != (want.ToList(), absolute, want.ToStr(), len(p + q)):
+                    rep("Bip32Path.AddElem: p extended by the elements of q is not the path p++q of the same kind",
+                        "p=%s q=%s absolute=%s" % (p, q, absolute), str((ext.ToList(), ext.IsAbsolute(), ext.ToStr())), str((want.ToList(), absolute, want.ToStr())))
+                if (start.ToList(), start.IsAbsolute()) != (p, absolute):
+                    rep("Bip32Path.AddElem changed its receiver", "p=%s q=%s" % (p, q), str((start.ToList(), start.IsAbsolute())), str((p, absolute)))
+                rp = Bip32PathParser.Parse(ext.ToStr())
+                if rp.ToList() != p + q or rp.IsAbsolute() != absolute:
+                    rep("parse(print(p.AddElem…)) != p++q", ext.ToStr(), str((rp.ToList(), rp.IsAbsolute())), str((p + q, absolute)))
+        if p:
+            child = m.DerivePath(Bip32Path(p, False))
+            rel = Bip32Path([], False)
+            for e in q:
+                rel = rel.AddElem(e)
+            try:
+                got = node_out(child.DerivePath(rel))
+            except Exception as ex:  # noqa
+                got = "raised " + type(ex).__name__
+            if got != a:
+                rep("a relative path built with AddElem does not derive like q on a child key", "%s seed=%s p=%s q=%s" % (c, seed.hex(), p, q), got, a)
     # compositionality of the WHOLE object (extended keys under non-default version bytes included), through private and public splits
     from harness.props.c05 import key_net_versions
     from bip_utils import Bip32KeyNetVersions
